@@ -144,7 +144,7 @@ func c08Gen(tier string, emit func(any)) {
 	ll, tl := c08Bounds(tier)
 	// (a) line structure
 	shapes := []string{"@@", "@ n @", "@ 9 @", "@ @", "@x", "# c", "", "var x expression", "var x,", "var x", "x expression", "-foo(x)", "+bar(x)", " ctx", " ...", "-func f(...) {"}
-	for _, s := range seqs(shapes, ll) {
+	seqsEach(shapes, ll, func(s []string) {
 		txt := strings.Join(s, "\n")
 		emit(&C08Case{Family: "a-lines", Patch: txt + "\n", Files: c08Targets[1:]})
 		if len(s) > 0 {
@@ -154,11 +154,11 @@ func c08Gen(tier string, emit func(any)) {
 			emit(&C08Case{Family: "a-lines-cli", Patch: txt + "\n", Files: c08Targets[1:], CLI: "p"})
 			emit(&C08Case{Family: "a-lines-cli", Patch: txt + "\n", Files: c08Targets[1:], CLI: "stdin"})
 		}
-	}
+	})
 	// (b) token strings on one side
-	for _, s := range seqs(c08TokenAlphabet, tl) {
+	seqsEach(c08TokenAlphabet, tl, func(s []string) {
 		if len(s) == 0 {
-			continue
+			return
 		}
 		side := strings.Join(s, " ")
 		var minus, plus []string
@@ -168,7 +168,7 @@ func c08Gen(tier string, emit func(any)) {
 		}
 		emit(&C08Case{Family: "b-tokens-minus", Patch: "@@\nvar x expression\n@@\n" + strings.Join(minus, "\n") + "\n+bar(x)\n", Files: c08Targets[:1]})
 		emit(&C08Case{Family: "b-tokens-plus", Patch: "@@\nvar x expression\n@@\n-foo(x)\n" + strings.Join(plus, "\n") + "\n", Files: c08Targets[:1]})
-	}
+	})
 	// (c) prefixes and (d) token neighbourhood of real patches
 	patches, inputs := testdataPatches()
 	if len(patches) < 50 {
